@@ -258,6 +258,7 @@ fn run(cfg: &Cfg) -> Report {
         check,
     ));
     rep.assume("the documented separator choices (\"_\", \",\", \" \", \"'\", \"\") and two multi-byte ones (U+202F, U+00A0); separators longer than 8 bytes are not generated");
+    rep.assume("significant digits 1-17: 0 has no meaning for 'rounded to the displayed number of significant digits', and values above 255 wrap in numbat's `as u8` conversion (both panic in the formatter today; observed by a sub-agent, outside the domain of this check)");
     rep
 }
 
